@@ -276,3 +276,17 @@ package api
 //@   ensures [the-envelope-names-collection-channel-task-and-carries-the-pack] result != nil && freshRef(result) && result.CollectionName == collectionName && result.CollectionID == collectionID && result.PChannelName == pchannelName && result.TaskID == taskID && result.MsgPack == msgPack
 //@   modifies fresh(ReplicateMsg.*)
 //@   panics never
+
+// ---- C05: what the downstream has acknowledged ------------------------------------------------------------------
+// ackedIDs: source checkpoints (message id of a pack's last end position) returned by successful writes.  A write
+// that fails acknowledges nothing.
+//@ ghost var ackedIDs set[[]byte]
+//@ ghost var writeCalls int
+//@ ghost var writeFailures int
+//@ trusted func (Writer).HandleReplicateMessage
+//@   params recv ctx channelName msgPack
+//@   ensures writeCalls == old(writeCalls) + 1
+//@   ensures result2 == nil ==> ackedIDs == setAdd(old(ackedIDs), result0)
+//@   ensures result2 != nil ==> ackedIDs == old(ackedIDs) && writeFailures == old(writeFailures) + 1
+//@   ensures result2 == nil ==> writeFailures == old(writeFailures)
+//@   modifies ackedIDs, writeCalls, writeFailures
